@@ -26,7 +26,7 @@ ASSUMPTIONS = ["exact states, use_center_only=False, trajectory prediction or no
                "obstacle polygons have their centroid at the frame origin (rotation centre is then unambiguous)"]
 
 HEX = [[-2.0, -1.0], [2.0, -1.0], [3.0, 0.0], [2.0, 1.0], [-2.0, 1.0], [-3.0, 0.0]]
-NETWORKS = [[1, 6], [1, 5], [2, 6, 8], [1, 3, 4]]
+NETWORKS = [[1, 6], [1, 5], [2, 6, 8], [1, 3, 4], [1, 9, 6]]
 
 
 def placed(shape, x, y, th):
